@@ -338,25 +338,25 @@ Section BD16.
 Variable ds : datasource.
 Variable legacy : bool.
 Variable runs : list run.
-Variable pc : list bclass.
+Variable oc pc : list bclass.
 
 Lemma bd16_run_ok run_index s en :
-  nth_error runs run_index = Some (s, en) -> en <= length pc ->
+  nth_error runs run_index = Some (s, en) -> en <= length pc -> en <= length oc ->
   forall sub a stack pairs,
     s + a + length sub <= en -> stack_ok runs (s + a) stack -> Forall (pair_ok runs) pairs ->
     exists stack' pairs' stopped,
-      bd16_run ds legacy pc run_index s (combine (seq a (length sub)) sub) stack pairs
+      bd16_run ds legacy oc pc run_index s (combine (seq a (length sub)) sub) stack pairs
         = Ok (stack', pairs', stopped) /\
       stack_ok runs en stack' /\ Forall (pair_ok runs) pairs'.
 Proof.
-  intros Hn Hen.
+  intros Hn Hen Heno.
   induction sub as [|ch sub IH]; intros a stack pairs Hlen Hst Hp.
   - cbn [length seq combine bd16_run]. exists stack, pairs, false. split; [reflexivity|]. split; [|exact Hp].
     eapply stack_ok_mono; [|exact Hst]. cbn [length] in Hlen. lia.
   - cbn [length] in Hlen. cbn [length seq combine bd16_run].
     assert (Hnext : forall stack1 pairs1, stack_ok runs (s + a) stack1 -> Forall (pair_ok runs) pairs1 ->
       exists stack' pairs' stopped,
-        bd16_run ds legacy pc run_index s (combine (seq (S a) (length sub)) sub) stack1 pairs1
+        bd16_run ds legacy oc pc run_index s (combine (seq (S a) (length sub)) sub) stack1 pairs1
           = Ok (stack', pairs', stopped) /\
         stack_ok runs en stack' /\ Forall (pair_ok runs) pairs').
     { intros stack1 pairs1 H1 H2. apply IH; [lia | | exact H2].
@@ -364,6 +364,9 @@ Proof.
     destruct (get_ok 524 pc (s + a)) as (c & Ec); [lia|].
     rewrite Ec; cbn [bind].
     destruct (negb (c =c ON)); [apply Hnext; assumption|].
+    destruct (get_ok 530 oc (s + a)) as (o & Eo); [lia|].
+    rewrite Eo; cbn [bind].
+    destruct (removed_by_x9 o && negb legacy); [apply Hnext; assumption|].
     destruct (ds_bracket ds ch) as [[opening is_open]|]; [|apply Hnext; assumption].
     destruct is_open.
     + destruct (bracket_limit <=? length stack).
@@ -383,16 +386,16 @@ Qed.
 
 End BD16.
 
-Lemma bd16_runs_ok ds text pc runs k :
-  length text = k -> length pc = k ->
+Lemma bd16_runs_ok ds text oc pc runs k :
+  length text = k -> length pc = k -> length oc = k ->
   forall rest pre run_index prev stack pairs,
     runs = pre ++ rest -> run_index = length pre ->
     runs_ascending prev rest -> Forall (run_in k) rest ->
     stack_ok runs prev stack -> Forall (pair_ok runs) pairs ->
-    exists pairs', bd16_runs U32 ds false text pc run_index rest stack pairs = Ok pairs' /\
+    exists pairs', bd16_runs U32 ds false text oc pc run_index rest stack pairs = Ok pairs' /\
                    Forall (pair_ok runs) pairs'.
 Proof.
-  intros Ht Hpc.
+  intros Ht Hpc Hoc.
   induction rest as [|[s en] rest IH]; intros pre run_index prev stack pairs Hruns Hri Hasc Hin Hst Hp.
   - cbn [bd16_runs]. eauto.
   - cbn [bd16_runs t_subrange t_char_indices].
@@ -402,7 +405,7 @@ Proof.
     rewrite Es; cbn [bind].
     assert (Hn : nth_error runs run_index = Some (s, en)).
     { rewrite Hruns, Hri, nth_error_app2, Nat.sub_diag by lia. reflexivity. }
-    destruct (bd16_run_ok ds false runs pc run_index s en Hn ltac:(lia)
+    destruct (bd16_run_ok ds false runs oc pc run_index s en Hn ltac:(lia) ltac:(lia)
                 (firstn (en - s) (skipn s text)) 0 stack pairs) as (st' & ps' & stopped & E & Hst' & Hps').
     { lia. }
     { eapply stack_ok_mono; [|exact Hst]. lia. }
@@ -528,7 +531,7 @@ Proof.
   destruct (get_ok 272 lv (fst r0)) as (l0 & El0); [destruct Hr0; lia|].
   rewrite El0; cbn [bind].
   unfold identify_bracket_pairs_gen.
-  destruct (bd16_runs_ok ds cps pc (irs_runs sq) k eq_refl Hpc (irs_runs sq) [] 0 0 [] [])
+  destruct (bd16_runs_ok ds cps oc pc (irs_runs sq) k eq_refl Hpc Hoc (irs_runs sq) [] 0 0 [] [])
     as (pairs & Ep & Hpairs); auto; try constructor.
   rewrite Ep; cbn [bind].
   apply (sort_pairs_Forall _ _) in Hpairs.
